@@ -6,9 +6,9 @@ import samplib as S
 PID = "C03"
 LEVEL = "proof"
 NEED_RELEASE = True
-COQ_TARGETS = ["Props/C03.vo", "Props/C03_fp.vo"]
-PROPS_FILES = ["C03", "C03_fp"]
-THEOREMS = ["C03_fingerprints", ]
+COQ_TARGETS = ["Props/C03.vo", "Props/C03_fp.vo", "Props/C03_support.vo", "Props/C03_refuted.vo"]
+PROPS_FILES = ["C03", "C03_fp", "C03_support", "C03_refuted"]
+THEOREMS = ["C03_frechet_refuted", "C03_frechet_except_known", "C03_gumbel_refuted", "C03_gumbel_except_known", "C03_beta_in_unit", "C03_gamma_nonneg", "C03_fingerprints", ]
 TRUSTED_BASE = [
     "Coq 8.16.1 kernel; integer-exact support theorems (alias/tree indices: C08/C10) and ideal-real support theorems on the "
     "sampler models (Proofs/Support.v) — the models are tied to the code by C01's pathwise correspondence",
